@@ -116,7 +116,8 @@ SrvShareControl(b, i, lim) ==
   ELSE IF pt = 23 THEN    \* data
      IF n < 18 THEN Bad("share data: truncated")
      ELSE SrvData(b, i + 18, lim, b[i+14], [ok |-> TRUE, shareId |-> B4(b, i+6)])
-  ELSE Bad("share control: unexpected pduType from server")
+  ELSE [ok |-> TRUE, kind |-> "UnknownControl", ptype |-> pt]     \* a share control PDU of a type this client does not handle
+                                                                  \* (server redirection 0x1A, ...): well formed, to be ignored
 
 \* several share control PDUs one after the other in the same MCS user data ("train"), each delimited by its
 \* totalLength: [ok, kind |-> "Train", items]
